@@ -116,13 +116,25 @@ func runC11(rc *RunCtx) {
 	var fieldReq *modbus.BuilderRequest
 	s.Go("operator", false, func(tk *Task) {
 		ctx := context.Background()
-		do := func(req packet.Request) (packet.Response, error) {
-			cl := netClient(dn, fr, 100*time.Millisecond)
-			if err := cl.Connect(ctx, server); err != nil {
-				return nil, err
+		// one client for the whole session: responses are held across later exchanges on the same client
+		cl := netClient(dn, fr, 100*time.Millisecond)
+		if err := cl.Connect(ctx, server); err != nil {
+			stepErr = err
+			return
+		}
+		defer cl.Close()
+		do := func(req packet.Request) (packet.Response, error) { return cl.Do(ctx, req) }
+		// interlude: another exchange on the same client while an earlier response is being held
+		interlude := func() {
+			if !t.Chance(1, 2) {
+				return
 			}
-			defer cl.Close()
-			return cl.Do(ctx, req)
+			q2 := 1 + t.Choose(400)
+			s2 := t.Choose(65536 - q2)
+			fc2 := byte(1 + t.Choose(2))
+			if r2, err := BuildLibRequest(Req{FC: fc2, Addr: uint16(s2), Qty: uint16(q2)}, unit, 10, fr); err == nil {
+				do(r2)
+			}
 		}
 		// 1. write the pattern with the library's own packing
 		wreq, err := BuildLibRequest(Req{FC: 15, Addr: uint16(ws), Coils: pattern}, unit, 7, fr)
@@ -172,6 +184,7 @@ func runC11(rc *RunCtx) {
 				stepErr = fmt.Errorf("read failed: %w", err)
 				return
 			}
+			interlude()
 			fieldVals, fieldErr = reqs[0].ExtractFields(resp, true)
 			return
 		}
@@ -201,6 +214,7 @@ func runC11(rc *RunCtx) {
 			}
 			return resp.(coilResp).IsCoilSet(uint16(start), a)
 		}
+		interlude()
 		addrs := map[int]bool{}
 		for a := start; a < start+8*payloadBytes && a < 65536; a++ {
 			if qty <= 300 || a < start+20 || a >= start+qty-20 || t.Chance(1, 16) {
